@@ -9,6 +9,7 @@ mod common;
 mod c04;
 mod c05;
 mod c08;
+mod c10;
 mod hist;
 mod tok;
 
@@ -27,6 +28,7 @@ fn main() {
     std::panic::set_hook(Box::new(|_| {}));
     let rule = match args[1].as_str() {
         "C04" => c04::run_c04(&mut out, &mut rng, tier),
+        "C10" => c10::run_c10(&mut out, &mut rng, tier),
         "C13" => c04::run_c13(&mut out, &mut rng, tier),
         "C05" => c05::run_c05(&mut out, &mut rng, tier),
         "C08" => c08::run_c08(&mut out, &mut rng, tier),
